@@ -6,7 +6,7 @@
 From Coq Require Import NArith List Bool.
 From GT Require Import Base.Verdict.
 From GT Require Import Base.GErrStr.
-From GT Require Import GErrModel GErrSpec.
+From GT Require Import GErrModel GErrSpec GErrMetric.
 Import ListNotations.
 
 Definition optN_eqb (a b : option N) : bool :=
@@ -32,6 +32,7 @@ Fixpoint views_eqb (a b : list view) : bool :=
 Record c15_case := {
   k_name : str; k_msg : str; k_src : str; k_isfac : bool;
   k_steps : list step;
+  k_frames : list str;          (* per step: function name of the frame that issues the call *)
   k_obs : list view;
   k_fac_after : view }.
 
@@ -55,9 +56,18 @@ Definition c15_spec (c : c15_case) : list view * view :=
   (map (fun p => spec_view (c15_v0 c) (map (eff_of base_wiring) p)) (prefixes (k_steps c)),
    c15_v0 c).
 
+(* the derived-source oracle of every step is the model's rendering of its frame name *)
+Fixpoint frames_ok (steps : list step) (frames : list str) : bool :=
+  match steps, frames with
+  | [], [] => true
+  | s :: steps', f :: frames' => str_eqb (a_derived (snd s)) (metric f) && frames_ok steps' frames'
+  | _, _ => false
+  end.
+
 Definition c15_domain (c : c15_case) : bool :=
   forallb no_shortcut (k_steps c)
-  && forallb derived_ok (map (eff_of base_wiring) (k_steps c)).
+  && forallb derived_ok (map (eff_of base_wiring) (k_steps c))
+  && frames_ok (k_steps c) (k_frames c).
 
 Definition c15_judge (c : c15_case) : nat :=
   if negb (c15_domain c) then 3
